@@ -4,3 +4,7 @@ package main
 
 // the build configuration this harness binary was compiled under (selects the Gen data in the Lean driver).
 const cfgName = "default"
+
+// realSHM: the harness attaches a private SysV segment with the fixture boards (needed by the .BRD histories).
+// The docker configuration (80 MB segment, 20000 board slots) keeps an in-process one and skips those histories.
+const realSHM = true
